@@ -191,7 +191,7 @@ pub fn history(enc: &'static Encoding, prof: EProfile) -> impl Strategy<Value = 
             }
         }
         let sink = if s % 3 == 0 && !utf16 { ESink::Vec } else { ESink::Slice };
-        let mut h = EncHistory { enc, src, sink, repl, text, cuts: vec![], last_on_empty, caps: vec![], fill, align: (align & 15) as usize };
+        let mut h = EncHistory { enc, src, sink, repl, text, cuts: vec![], last_on_empty, caps: vec![], fill, align: (align & 15) as usize, undersized_ok: false };
         h.normalize();
         let n = h.text.len();
         h.cuts = cutf.iter().map(|f| pick(*f, n + 1)).collect();
